@@ -162,21 +162,27 @@ def assumptions(prop_file, timeout):
     return rc, out, theorems, prints, closed, sorted(set(axioms))
 
 
-def build_extraction(timeout):
-    odir = os.path.join(BUILD, "ocaml")
+def build_extraction(pid, timeout):
+    """Per-property extraction: only run_<pid> and what it depends on, so that a model of another
+    property that no longer builds cannot raise an alarm here."""
+    odir = os.path.join(BUILD, "ocaml", pid)
     os.makedirs(odir, exist_ok=True)
-    rc, out = coq_make(["Extract/Run.vo"], timeout)
+    rc, out = coq_make(["Extract/Run%s.vo" % pid], timeout)
     if rc:
         return rc, out
-    run_vo = os.path.join(COQ, "Extract", "Run.vo")
+    run_vo = os.path.join(COQ, "Extract", "Run%s.vo" % pid)
     drv = os.path.join(odir, "driver")
     src = os.path.join(V, "ocaml", "driver.ml")
     if os.path.exists(drv) and os.path.getmtime(drv) > max(os.path.getmtime(run_vo), os.path.getmtime(src)):
         return 0, "driver up to date"
-    rc, out = run(["coqc", "-R", COQ, "Astits", os.path.join(COQ, "Extract", "Extract.v")], cwd=odir, timeout=timeout)
+    with open(os.path.join(odir, "extract.v"), "w") as f:
+        f.write("Require Extraction.\nRequire Import ExtrOcamlBasic.\nRequire Import Astits.Base.Tok Astits.Extract.Run%s.\n"
+                "Extraction Language OCaml.\nExtraction \"model.ml\" run_%s.\n" % (pid, pid))
+    rc, out = run(["coqc", "-R", COQ, "Astits", "extract.v"], cwd=odir, timeout=timeout)
     if rc:
         return rc, out
-    run(["cp", src, odir])
+    d = open(src).read().replace("run_case (z_of_int prop) t", "run_%s t" % pid)
+    open(os.path.join(odir, "driver.ml"), "w").write(d)
     rc, out2 = run("ocamlfind ocamlopt -O3 -w -a model.mli model.ml driver.ml -o driver.tmp && mv driver.tmp driver", cwd=odir, timeout=timeout)
     return rc, out + out2
 
@@ -286,7 +292,7 @@ def main():
         if g:
             broken.append(("gate", "forbidden constructs: " + "; ".join(g[:10])))
         # 4. extraction + driver
-        rc, out = build_extraction(coq_timeout)
+        rc, out = build_extraction(pid, coq_timeout)
         model_ok = rc == 0
         if rc:
             broken.append(("model", "executable model no longer builds: " + first_coq_error(out)))
@@ -317,7 +323,7 @@ def main():
         if model_ok and rc == 0:
             with open(os.path.join(rundir, "cases.txt"), "rb") as cf, open(os.path.join(rundir, "model.txt"), "wb") as mf:
                 try:
-                    p = subprocess.run(["bash", "-c", "ulimit -s unlimited 2>/dev/null; exec " + os.path.join(BUILD, "ocaml", "driver")],
+                    p = subprocess.run(["bash", "-c", "ulimit -s unlimited 2>/dev/null; exec " + os.path.join(BUILD, "ocaml", pid, "driver")],
                                        stdin=cf, stdout=mf, stderr=subprocess.PIPE,
                                        timeout=7200 if tier == "thorough" else 1200)
                     drc = p.returncode
